@@ -56,6 +56,7 @@ type Recipe struct {
 	Parts     [][][]Op `json:"parts"`
 	OffBatch  int      `json:"off_batch,omitempty"` // offline writer: batch size argument
 	Open      string   `json:"open"`                // nrt | reopen | backup
+	Settle    bool     `json:"settle,omitempty"`    // nrt on a merging writer: let the merger finish first (bounded)
 	NoConj    bool     `json:"no_conj,omitempty"`   // DisableOptimizeConjunction
 	NoConjU   bool     `json:"no_conj_u,omitempty"` // DisableOptimizeConjunctionUnadorned
 	NoDisjU   bool     `json:"no_disj_u,omitempty"` // DisableOptimizeDisjunctionUnadorned
@@ -557,7 +558,7 @@ func genRecipe(t *rapid.T, label string, docs []Doc, mode string) Recipe {
 	r.NoConjU = rapid.Bool().Draw(t, label+"NoConjU")
 	r.NoDisjU = rapid.Bool().Draw(t, label+"NoDisjU")
 	if free {
-		r.ScoreNone = rapid.IntRange(0, 2).Draw(t, label+"ScoreNone") == 0
+		r.ScoreNone = rapid.Bool().Draw(t, label+"ScoreNone")
 	}
 	switch r.Kind {
 	case "writer":
@@ -571,6 +572,7 @@ func genRecipe(t *rapid.T, label string, docs []Doc, mode string) Recipe {
 			opens = []string{"nrt", "backup"}
 		}
 		r.Open = rapid.SampledFrom(opens).Draw(t, label+"Open")
+		r.Settle = r.Open == "nrt" && r.Conf.Merge != "none" && rapid.IntRange(0, 2).Draw(t, label+"Settle") > 0
 		r.fixNothingWritten()
 	case "offline":
 		order := idx(n)
@@ -790,11 +792,12 @@ func firstRunes(s string, n int) string {
 }
 
 func genQuery(t *rapid.T, v vocab, depth int) Q {
-	k := rapid.IntRange(0, 11).Draw(t, "queryKind")
+	k := rapid.IntRange(0, 13).Draw(t, "queryKind")
 	if depth >= 2 || k < 4 {
 		return genLeaf(t, v)
 	}
 	if k >= 10 {
+		k = 10 + k%2
 		// what the conjunction / disjunction optimisations are made for: plain term clauses
 		q := Q{Kind: "bool"}
 		n := rapid.IntRange(2, 3).Draw(t, "nTermClauses")
